@@ -42,6 +42,10 @@ type Job struct {
 	ConfirmOnlyFailures bool
 	// PanicIsCover: allowed panics become cover obligations named "rejected by panic @file:line"
 	PanicIsCover bool
+	// UnwindIsViolation: the property of the job IS termination within the stated unwinding
+	// bounds: a satisfiable unwinding obligation is a counterexample (confirmed natively when the
+	// compiled harness does not finish within the target's replay limits), not "bound too small".
+	UnwindIsViolation bool
 }
 
 type ObSample struct {
@@ -191,6 +195,11 @@ func (c *Ctx) RunJobs(jobs []Job, workers int) {
 			if j.Name == c.ReplayOnly.Job {
 				nr, err := c.nativeRun(j, c.ReplayPath)
 				c.ReplayOnlyFailures = j.ConfirmOnlyFailures
+				if err != nil && j.UnwindIsViolation && nr != nil && nr.Killed {
+					fmt.Println("the natively compiled harness did not finish within its time/memory limit")
+					c.ReplayResult = &NativeResult{Raw: nr.Raw, Failures: []string{"does not terminate within the replay limits"}}
+					continue
+				}
 				if err != nil && j.ConfirmOnlyFailures && nr != nil {
 					// the subject ended the process itself (gocc's os.Exit): it rejected its input
 					fmt.Println("the code under test ended the process (os.Exit): no assertion of the harness failed")
@@ -437,6 +446,22 @@ func (c *Ctx) validateCover(j Job, e *engine.Engine, o engine.Outcome) {
 }
 
 func (c *Ctx) handleCounterexample(j Job, e *engine.Engine, o engine.Outcome) {
+	if o.Ob.Kind == "unwind" && j.UnwindIsViolation {
+		p, _ := c.writeReplay(j, e, o, "")
+		nr, err := c.nativeRun(j, p)
+		c.mu.Lock()
+		defer c.mu.Unlock()
+		hung := nr != nil && nr.Killed
+		if err == nil && nr != nil && nr.Panic != "" && strings.Contains(nr.Panic, "out of memory") {
+			hung = true
+		}
+		if !hung {
+			c.Mismatches = append(c.Mismatches, fmt.Sprintf("%s: unwinding bound exceeded in the engine (%s) but the native run finished (killed=%v err=%v): bound too small? replay=%s", j.Name, o.Ob.Rec.Msg, nr != nil && nr.Killed, firstLine(fmt.Sprint(err)), p))
+			return
+		}
+		c.Violations = append(c.Violations, Finding{Job: j.Name, Ob: o.Ob.Name, Msg: fmt.Sprintf("does not terminate within the unwinding bound: %s (%s); the natively compiled harness did not finish within %d s / %d KB either", o.Ob.Rec.Msg, o.Ob.Rec.Pos, j.Target.ReplayTimeoutS, j.Target.ReplayMemKB), Replay: p, Native: nr, Confirm: true, What: "termination: " + o.Ob.Rec.Msg})
+		return
+	}
 	if o.Ob.Kind == "unwind" {
 		c.mu.Lock()
 		c.Inconclusive = append(c.Inconclusive, fmt.Sprintf("%s: unwinding bound too small: %s (%s)", j.Name, o.Ob.Rec.Msg, o.Ob.Rec.Pos))
